@@ -146,6 +146,7 @@ type Interp struct {
 	curFrame *frame
 	sites    map[string]int
 	tracked  map[*Value]bool
+	trackedMaps map[*Map]bool
 	raceReport string
 }
 
@@ -308,7 +309,7 @@ func (in *Interp) visitInstr(fr *frame, instr ssa.Instruction) continuation {
 		if addr == nil {
 			in.rtPanic("invalid memory address or nil pointer dereference")
 		}
-		in.noteAccess(addr, true)
+		in.noteAccessDeep(addr, true)
 		store(addr, fr.get(instr.Val))
 
 	case *ssa.If:
